@@ -464,6 +464,7 @@ func c02Cell(p vbase.Params, r *vbase.Result, scheme string, cache uint, n, repI
 	mut("foreign-view-sigs", w.assemble(honest(S, B.View().ToBytes()), nil, 0), B.View(), B.Hash())
 	mut("relabelled-view-up", w.assemble(honest(S, bBytes), nil, 0), B.View()+1, B.Hash())
 	mut("relabelled-view-far", w.assemble(honest(S, bBytes), nil, 0), B.View()+1000, B.Hash())
+	mut("relabelled-view-plus-2^32", w.assemble(honest(S, bBytes), nil, 0), B.View()+1<<32, B.Hash())
 	mut("relabelled-view-zero", w.assemble(honest(S, bBytes), nil, 0), 0, B.Hash())
 	mut("relabelled-hash-sibling", w.assemble(honest(S, bBytes), nil, 0), B.View(), D.Hash())
 	mut("relabelled-hash-child", w.assemble(honest(S, bBytes), nil, 0), C.View(), C.Hash())
@@ -558,6 +559,10 @@ func c02Cell(p vbase.Params, r *vbase.Result, scheme string, cache uint, n, repI
 	}
 	mutT("relabelled-view-up", w.assemble(honest(T, tvb), nil, 0), tv+1)
 	mutT("relabelled-view-far", w.assemble(honest(T, tvb), nil, 0), tv+1<<40)
+	// views that agree in their low bits: 2^8, 2^16, 2^32, 2^48 and 2^63 away (a truncating view encoding would sign them alike)
+	for _, sh := range []uint{8, 16, 32, 48, 63} {
+		mutT(fmt.Sprintf("relabelled-view-plus-2^%d", sh), w.assemble(honest(T, tvb), nil, 0), tv+hotstuff.View(1)<<sh)
+	}
 	mutT("foreign-message-sigs", w.assemble(honest(T, bBytes), nil, 0), tv)
 	mutT("view-zero-canonical", nil, 0)
 	mutT("absent-signature", nil, tv)
@@ -606,6 +611,9 @@ func c02Cell(p vbase.Params, r *vbase.Result, scheme string, cache uint, n, repI
 	mutA("rebuilt-honest", qcsHonest, honestAggSig, tv) // unjudged unless rejected... (must-accept is asserted only for Create*)
 	mutA("relabelled-view-up", qcsHonest, honestAggSig, tv+1)
 	mutA("relabelled-view-down", qcsHonest, honestAggSig, tv-1)
+	for _, sh := range []uint{8, 16, 32, 48, 63} {
+		mutA(fmt.Sprintf("relabelled-view-plus-2^%d", sh), qcsHonest, honestAggSig, tv+hotstuff.View(1)<<sh)
+	}
 	if q >= 2 {
 		sub := T[:q-1]
 		qs := map[hotstuff.ID]hotstuff.QuorumCert{}
